@@ -147,6 +147,10 @@ where
             None => return f64::NAN,
             Some(x) => *x.borrow(),
         };
+        if sum.is_nan() {
+            // a single NaN entry never enters the update loop below
+            return f64::NAN;
+        }
         let mut i = 1.0;
         let mut variance = 0.0;
 
